@@ -133,7 +133,19 @@ def expected(cell_dir, cell, root_level=False):
     if root_level:
         eff = [("closest", "both", set(ROOT_ITEMS))] + eff
     if ovr is not None:
-        return must, forbidden_src, not outer_present
+        # the file and everything below the override are not looked at; what REUSE.toml files *above* it contribute stays: their
+        # aggregate tables, and - the file itself stating nothing - the nearest closest table for each kind
+        want = set(must)
+        upper = eff[:ovr + (1 if root_level else 0)]
+        for e in upper:
+            if e and e[0] == "aggregate":
+                want |= e[2]
+        for kind, infos in (("c", ("cop", "both")), ("l", ("lic", "both"))):
+            for e in reversed(upper):
+                if e and e[0] == "closest" and e[1] in infos:
+                    want |= {i for i in e[2] if i[0] == kind}
+                    break
+        return want, forbidden_src, True
     want = set(mine)
     has_c = any(i[0] == "c" for i in mine)
     has_l = any(i[0] == "l" for i in mine)
@@ -344,28 +356,36 @@ def run_dep5(case, ctx, res):
         (root / ".reuse/dep5").write_text(
             "Format: https://www.debian.org/doc/packaging-manuals/copyright-format/1.0/\nUpstream-Name: x\n"
             "Upstream-Contact: y\nSource: https://example.com\n\n" + "\n".join(paras))
-        r = run_cli(["--no-multiprocessing", "--root", str(root), "lint", "--json"], cwd=str(root))
-        if r.escaped:
-            res.violation("escaped-exception", f"{r.exc_type} left main()", tb=r.exc_tb)
-            return res.out()
-        try:
-            data = json.loads(r.stdout)
-        except ValueError:
-            res.violation("lint-gives-no-report", f"lint --json exit {r.exit_code} without a report", **r.brief())
-            return res.out()
-        by = {f["path"]: f for f in data["files"]}
-        for j, (own, dot, d) in enumerate(case["cells"]):
-            cd = f"c{j:04d}"
-            res.n += 1
-            obs = observed_items(by[f"{cd}/d1/d2/f.txt"])
-            want = own_items(cd, OWN[own], DOT[dot])
-            if d:
-                want |= {("c", f"2010 Dep5 Holder{j}", ".reuse/dep5", "dep5"), ("l", "LicenseRef-dep5", ".reuse/dep5", "dep5")}
-            if obs != want:
-                res.violation("dep5-aggregate", f"dep5 cell own={OWN[own]} .license={DOT[dot]} dep5={d}: got {sorted(obs)} want {sorted(want)}")
-            if d and (own in (1, 2, 3) or dot in (2, 3, 4)):
-                res.nsig += 1
-            res.cell("dep5-cell")
+        # once in one process from the root, once through the worker pool from the directory above with a relative root: the
+        # dep5 file is read again inside every worker
+        for how, argv, cwd_, strip in (("serial, from the root", ["--no-multiprocessing", "--root", str(root), "lint", "--json"], str(root), ""),
+                                       ("pool, from the parent directory", ["--root", root.name, "lint", "--json"], str(root.parent), root.name + "/")):
+            r = run_cli(argv, cwd=cwd_)
+            if r.escaped:
+                res.violation("escaped-exception", f"{r.exc_type} left main()", tb=r.exc_tb)
+                return res.out()
+            try:
+                data = json.loads(r.stdout)
+            except ValueError:
+                res.violation("lint-gives-no-report", f"lint --json exit {r.exit_code} without a report", **r.brief())
+                return res.out()
+            by = {(f["path"][len(strip):] if f["path"].startswith(strip) else f["path"]): f for f in data["files"]}
+            res.cell("dep5-run:" + how)
+            for j, (own, dot, d) in enumerate(case["cells"]):
+                cd = f"c{j:04d}"
+                res.n += 1
+                if f"{cd}/d1/d2/f.txt" not in by:
+                    res.violation("file-not-reported", f"dep5 cell {cd} missing from lint --json ({how})")
+                    continue
+                obs = observed_items(by[f"{cd}/d1/d2/f.txt"])
+                want = own_items(cd, OWN[own], DOT[dot])
+                if d:
+                    want |= {("c", f"2010 Dep5 Holder{j}", ".reuse/dep5", "dep5"), ("l", "LicenseRef-dep5", ".reuse/dep5", "dep5")}
+                if obs != want:
+                    res.violation("dep5-aggregate", f"dep5 cell own={OWN[own]} .license={DOT[dot]} dep5={d}: got {sorted(obs)} want {sorted(want)}")
+                if d and (own in (1, 2, 3) or dot in (2, 3, 4)):
+                    res.nsig += 1
+                res.cell("dep5-cell")
     finally:
         shutil.rmtree(root, ignore_errors=True)
     return res.out()
